@@ -31,6 +31,9 @@ THEOREMS = [
     "RefineCtorInit.padding1d_none_ok", "RefineCtorInit.padding1d_some_ok", "RefineCtorInit.tree_init_eq", "RefineCtorInit.step_ok",
     "RefineCtorInit.padAll_ok", "RefineCtorInit.tree_init_ok",
     "C03.generated_padding1d_spec", "C03.generated_tree_init_spec", "C03.generated_tree_init_given",
+    # Tree.from_data_frame as generated on this run, on the generated constructor
+    "RefineCtorInit.for1_loop", "RefineCtorInit.from_data_frame_eq", "RefineCtorInit.gatherCols_ok", "RefineCtorInit.tree_init_given",
+    "RefineCtorInit.from_data_frame_ok", "C03.generated_from_data_frame_spec",
 ]
 TRUSTED = ["the per-operation models of C05 (sort), C06 (subtree / prune / cut), C07 (re-root, concatenate), C09 (heap: copies allocate), C12 (transforms touch only x, y, z), "
            "each tied to the code by its own correspondence suite; this property's suite checks the composition on the real library"]
